@@ -38,7 +38,9 @@ def jb_val(nm: Names, jb):
     return [
         [S([nm.id(c) for c in g]) for g in (jb.get("r") or [])],
         frac(jb.get("w", "1")),
-        S([[nm.id(c), frac(v)] for c, v in (jb.get("s") or {}).items() if frac(v) != 0]),
+        # Ballot stores every score as Fraction(s).limit_denominator() and drops zeros
+        S([[nm.id(c), frac(v).limit_denominator()] for c, v in (jb.get("s") or {}).items()
+           if frac(v).limit_denominator() != 0]),
         None if jb.get("id") is None else nm.id("id:" + str(jb["id"])),
         None if jb.get("vs") is None else S([nm.id("v:" + str(x)) for x in jb["vs"]]),
     ]
